@@ -93,11 +93,21 @@ def run(ctx):
     ok = len(rc) == 1 and not M.sccs(cr)
     if ok:
         d = Tc.operand(rc[0][1]["args"][1])
-        ok = d[0] == "call" and d[1] == "std::option::Option::<T>::map" and M.noref(d[2][0]) == ("field", ("param", 1, cr.local_name(1)), "time_limit") and d[2][1][0] == "agg" and d[2][1][1][0] == "closure"
-        if ok:
-            cf = prog.fns[d[2][1][1][1]]
-            r0 = M.Terms(cf).local(0)
-            ok = r0[0] == "call" and "Add" in r0[1] and r0[2][0][0] == "call" and r0[2][0][1] == "std::time::Instant::now" and r0[2][1] == ("param", 2, cf.local_name(2))
+        tl = ("field", ("param", 1, cr.local_name(1)), "time_limit")
+
+        def now_plus(t_, limit_pred):
+            return t_[0] == "call" and "Add" in t_[1] and t_[2][0][0] == "call" and t_[2][0][1] == "std::time::Instant::now" and limit_pred(t_[2][1])
+        if d[0] == "call" and d[1] == "std::option::Option::<T>::map":
+            ok = M.noref(d[2][0]) == tl and d[2][1][0] == "agg" and d[2][1][1][0] == "closure"
+            if ok:
+                cf = prog.fns[d[2][1][1][1]]
+                ok = now_plus(M.Terms(cf).local(0), lambda x: x == ("param", 2, cf.local_name(2)))
+        else:
+            # explicit match: Some(now + limit) | None
+            al = M.alts(d)
+            somes = [a_ for a_ in al if a_[0] == "agg" and a_[1][:3] == ("adt", "std::option::Option", "Some")]
+            nones = [a_ for a_ in al if a_ == ("agg", ("adt", "std::option::Option", "None"), ())]
+            ok = len(somes) == 1 and len(somes) + len(nones) == len(al) and now_plus(somes[0][2][0], lambda x: M.noref(x) == ("field", ("downcast", tl, "Some"), "0"))
     ctx.ob("R04.3", "deadline=now+time_limit.once", ok, cr.loc(0), "Communicator::read computes the deadline once (no loop) as Instant::now() + time_limit and passes it down")
     rr = prog.one("communicate::raw::RawCommunicator::read")
     Tr = M.Terms(rr)
@@ -117,16 +127,20 @@ def run(ctx):
             Tf = M.Terms(cf)
             dparam = ("param", 2, cf.local_name(2))
             now = lambda x: M.noref(M.strip(x))[0] == "call" and M.noref(M.strip(x))[1] == "std::time::Instant::now"
-            past = bool_edges(cf, Tf, lambda c_: c_[0] == "call" and c_[1].endswith("PartialOrd::ge") and now(c_[2][0]) and M.noref(M.strip(c_[2][1])) == dparam, True)
-            notpast = bool_edges(cf, Tf, lambda c_: c_[0] == "call" and c_[1].endswith("PartialOrd::ge") and now(c_[2][0]) and M.noref(M.strip(c_[2][1])) == dparam, False)
-            rets = {}
-            for bb in cf.live_blocks():
-                t = cf.blocks[bb]["term"]
-                if t["k"] == "call" and not t["dest"]["proj"] and t["dest"]["l"] == 0:
-                    rets[bb] = ("call", M.callee_str(t["f"]), tuple(Tf.operand(a) for a in t["args"]))
-            zero = [bb for bb, v in rets.items() if v[1] in ("std::time::Duration::from_secs", "std::time::Duration::from_millis") and const_of(v[2][0]) == 0]
-            sub = [bb for bb, v in rets.items() if "Sub" in v[1] and v[2][0] == dparam and now(v[2][1])]
-            ok = len(zero) == 1 and len(sub) == 1 and dominated_by_edges(cf, zero[0], past) and dominated_by_edges(cf, sub[0], notpast)
+            r0_ = Tf.local(0)
+            if r0_[0] == "call" and r0_[1] in ("std::time::Instant::saturating_duration_since",) and M.noref(r0_[2][0]) == dparam and now(r0_[2][1]):
+                ok = True  # deadline.saturating_duration_since(Instant::now()): zero when already past
+            else:
+                past = bool_edges(cf, Tf, lambda c_: c_[0] == "call" and c_[1].endswith("PartialOrd::ge") and now(c_[2][0]) and M.noref(M.strip(c_[2][1])) == dparam, True)
+                notpast = bool_edges(cf, Tf, lambda c_: c_[0] == "call" and c_[1].endswith("PartialOrd::ge") and now(c_[2][0]) and M.noref(M.strip(c_[2][1])) == dparam, False)
+                rets = {}
+                for bb in cf.live_blocks():
+                    t = cf.blocks[bb]["term"]
+                    if t["k"] == "call" and not t["dest"]["proj"] and t["dest"]["l"] == 0:
+                        rets[bb] = ("call", M.callee_str(t["f"]), tuple(Tf.operand(a) for a in t["args"]))
+                zero = [bb for bb, v in rets.items() if v[1] in ("std::time::Duration::from_secs", "std::time::Duration::from_millis") and const_of(v[2][0]) == 0]
+                sub = [bb for bb, v in rets.items() if "Sub" in v[1] and v[2][0] == dparam and now(v[2][1])]
+                ok = len(zero) == 1 and len(sub) == 1 and dominated_by_edges(cf, zero[0], past) and dominated_by_edges(cf, sub[0], notpast)
     ctx.ob("R04.3", "poll-timeout=deadline-now|0", ok, mp.loc(pc[0][0] if pc else 0), "the timeout of each poll is recomputed as deadline - Instant::now() (zero when already past)")
 
     # ---- R04.4 posix::poll: infinite without limit, guarded cast, re-arm --------------------------------------------
@@ -191,6 +205,16 @@ def run(ctx):
     okw = all(p == ri.path for v in writers.values() for p, _ in v)
     ctx.ob("R04.6", "state-writers", okw and len(writers.get("input_pos", [])) == 1 and len(writers.get("stdin&mut", [])) == 1, ri.loc(0),
            "cursor / input / stdin of the communicator are written only inside read_into (writers: %s)" % {k: [p.split("::")[-1] + "@bb%d" % b for p, b in v] for k, v in writers.items()})
+    # what a write() accepted must be persisted in the communicator before *any* return — also the error returns
+    # (timeout, I/O error), or a resumed read() sends those bytes again
+    for wb, wt in E.writes:
+        ok_e = try_ok_edges(ri, T, lambda c: c[3] == wb)
+        st_ = [x_[0] for x_ in stores_to_field(ri, "input_pos", RC)]
+        rets_ = ri.return_blocks()
+        okp = bool(ok_e) and bool(st_) and all(dominated_by_blocks(ri, r_, st_, start=ok_e[0][1]) for r_ in rets_ if r_ in ri.reachable(ok_e[0][1]))
+        ctx.ob("R04.6", "cursor-persisted-before-any-return", okp, ri.loc(wb),
+               "after a successful write() every path to a return — Ok, TimedOut or an I/O error — must first store the advanced cursor into self.input_pos "
+               "(stores at %s); a cursor kept in a local until the loop ends is lost on the error exits and the next read() repeats the bytes" % st_)
     # input_data is cleared only together with closing stdin
     idw = writers.get("input_data", [])
     takes = [bb for bb, t in ri.calls() if M.callee_str(t["f"]) == "std::option::Option::<T>::take" and M.noref(T.operand(t["args"][0])) == ("field", E.selfp, "stdin")]
